@@ -149,7 +149,7 @@ func runWsTrial(id int, seed int64, url string) *wsTrialResult {
 	kind := kinds[rnd.Intn(len(kinds))]
 	// now and then: a peer that stops reading, writers blocked on a full queue, then a local close with a reason -
 	// everything must come back once the transport write deadline (10 s) has passed
-	big := rnd.Intn(100) == 0
+	big := rnd.Intn(100) == 0 || wsStallOnly
 	if big {
 		kind = "stalledpeer+localreason"
 	}
@@ -466,6 +466,8 @@ func runWsTrial(id int, seed int64, url string) *wsTrialResult {
 	return res
 }
 
+var wsStallOnly bool
+
 func pumpFrames() int {
 	var b bytes.Buffer
 	_ = pprof.Lookup("goroutine").WriteTo(&b, 2)
@@ -478,7 +480,9 @@ func wsstressMain(args []string) int {
 	n := fs.Int("n", 300, "number of trials")
 	workers := fs.Int("workers", 16, "parallel trials")
 	out := fs.String("out", "ws_out.txt", "result lines")
+	stall := fs.Bool("stallonly", false, "only trials with a peer that stops reading")
 	_ = fs.Parse(args)
+	wsStallOnly = *stall
 	srv := httptest.NewServer(http.HandlerFunc(wsPeerHandler))
 	defer srv.Close()
 	url := "ws" + strings.TrimPrefix(srv.URL, "http")
